@@ -401,6 +401,18 @@ func (cw *c07World) exec(in c07Input, plan map[int]string, wantPrefix []string) 
 	dPayee := after.payee.Sub(before.payee)
 	dH := before.hbal.Sub(after.hbal)
 	if obs.hookOK {
+		// the hook messages' events are part of its effects: the executor relays from events
+		// (e.g. a withdrawal initiated inside a hook), so they must reach the transaction
+		nTransfers := 0
+		for _, e := range world.EventsOfType(res.Events, "transfer") {
+			if r, _ := world.Attr(e, "recipient"); r == world.Addr("payee").String() {
+				nTransfers++
+			}
+		}
+		wantTransfers := map[string]int{"signed[ok]": 1, "signed[ok,ok]": 2}[in.Payload]
+		if nTransfers != wantTransfers {
+			return obs, tagged(viol("hook-effects-applied-when-hook-succeeds", "%s: hook succeeded with %d bank sends but the transaction carries %d of their transfer events", label, wantTransfers, nTransfers), "what", "events")
+		}
 		if !dPayee.Equal(math.NewInt(int64(oks))) || !dH.Equal(math.NewInt(int64(oks))) {
 			return obs, viol("hook-effects-applied-when-hook-succeeds", "%s: hook succeeded but payee +%s / signer -%s (expected %d)", label, dPayee, dH, oks)
 		}
